@@ -76,6 +76,9 @@ static void emit_check(const std::string &cls, int variant, unsigned fs, unsigne
 		std::to_string(pp) + " " + std::to_string(qp) + " " + log + " tag:" + tag + ":v" + std::to_string(variant) + " => " + out);
 }
 
+// index of the generator to corrupt: the last ones as often as a random one (the per-generator loops have bounds of their own)
+static size_t pick_idx(SplitMix &g, size_t n) { switch (g.below(4)) { case 0: return n - 1; case 1: return n >= 2 ? n - 2 : 0; case 2: return 0; default: return g.below(n); } }
+
 static int drv_groups(const Opts &o)
 {
 	SplitMix g(o.seed ^ 0x67727073);
@@ -96,7 +99,7 @@ static int drv_groups(const Opts &o)
 			SmallGroup sg = make_group(g, pbits, qbits); P.p = sg.p; P.q = sg.q; P.k = sg.k; P.g = sg.g;
 			if (can || cls == "PVSS") canonical_g(P.g, P.p, P.q, P.k);
 			Z e; do { gen_below(e, g, P.q); mpz_powm(P.h, sg.g, e, P.p); } while (!mpz_cmp_ui(P.h, 1) || !mpz_cmp(P.h, P.g));
-			if (cls == "P") { size_t n = 1 + g.below(4); for (size_t i = 0; i < n; i++) { Z x; bool dup; do { gen_below(e, g, P.q); mpz_powm(x, sg.g, e, P.p); dup = !mpz_cmp_ui(x, 1) || !mpz_cmp(x, P.h); for (auto &y : P.gs) if (!mpz_cmp(x, y)) dup = true; } while (dup); P.gs.push_back(x); } }
+			if (cls == "P") { size_t n = 1 + g.below(4); if (g.below(4) == 0) n = TMCG_MAX_FPOWM_N + 1 + g.below(6); /* more generators than fast-exponentiation tables */ for (size_t i = 0; i < n; i++) { Z x; bool dup; do { gen_below(e, g, P.q); mpz_powm(x, sg.g, e, P.p); dup = !mpz_cmp_ui(x, 1) || !mpz_cmp(x, P.h); for (auto &y : P.gs) if (!mpz_cmp(x, y)) dup = true; } while (dup); P.gs.push_back(x); } }
 		}
 		unsigned fs = pbits, gsz = qbits;
 		emit_check(cls, variant, fs, gsz, can, es, P, "valid");
@@ -104,7 +107,7 @@ static int drv_groups(const Opts &o)
 		int nm = thorough ? 26 : 8;
 		for (int m = 0; m < nm; m++) {
 			GP Q = P; std::string tag; unsigned fs2 = fs, gs2 = gsz; bool can2 = can; unsigned es2 = es;
-			int how = g.below(30);
+			int how = g.below(30); if (cls == "P" && P.gs.size() > 4 && g.coin()) how = 20 + g.below(4);
 			Z pm1; mpz_sub_ui(pm1, P.p, 1);
 			switch (how) {
 			case 0: mpz_add_ui(Q.p, Q.p, 2); tag = "p+2"; break;
@@ -131,10 +134,10 @@ static int drv_groups(const Opts &o)
 			case 17: { Z e; gen_below(e, g, P.q); mpz_add_ui(e, e, 2); mpz_powm(Q.g, P.g, e, P.p); tag = "g-other-element"; } break; // still order q: breaks only the canonical derivation
 			case 18: fs2 = fs + 1; tag = "fsize+1"; break;
 			case 19: gs2 = gsz + 1; tag = "gsize+1"; break;
-			case 20: if (!Q.gs.empty()) { mpz_set(Q.gs[g.below(Q.gs.size())], Q.h); } tag = "gi=h"; break;
-			case 21: if (Q.gs.size() >= 2) { mpz_set(Q.gs[0], Q.gs[1]); } tag = "gi=gj"; break;
-			case 22: if (!Q.gs.empty()) { mpz_set_ui(Q.gs[g.below(Q.gs.size())], g.below(2)); } tag = "gi=0/1"; break;
-			case 23: if (!Q.gs.empty()) { Z e; do { gen_below(e, g, P.p); mpz_powm(Q.gs[0], e, P.q, P.p); } while (mpz_cmp_ui(Q.gs[0], 1) <= 0); } tag = "gi-wrong-order"; break;
+			case 20: if (!Q.gs.empty()) { mpz_set(Q.gs[pick_idx(g, Q.gs.size())], Q.h); } tag = "gi=h"; break;
+			case 21: if (Q.gs.size() >= 2) { size_t i = pick_idx(g, Q.gs.size()), j = pick_idx(g, Q.gs.size()); if (i == j) j = (i + 1) % Q.gs.size(); mpz_set(Q.gs[i], Q.gs[j]); } tag = "gi=gj"; break;
+			case 22: if (!Q.gs.empty()) { mpz_set_ui(Q.gs[pick_idx(g, Q.gs.size())], g.below(2)); } tag = "gi=0/1"; break;
+			case 23: if (!Q.gs.empty()) { size_t i = pick_idx(g, Q.gs.size()); Z e; do { gen_below(e, g, P.p); mpz_powm(Q.gs[i], e, P.q, P.p); } while (mpz_cmp_ui(Q.gs[i], 1) <= 0); } tag = "gi-wrong-order"; break;
 			case 24: mpz_neg(Q.g, Q.g); tag = "g-negative"; break;
 			case 25: mpz_sub(Q.g, Q.p, Q.g); tag = "p-g"; break;
 			case 26: mpz_set_ui(Q.p, 0); tag = "p=0"; break;
@@ -143,6 +146,17 @@ static int drv_groups(const Opts &o)
 			default: mpz_mul_ui(Q.q, Q.q, 2); tag = "q*2"; break;
 			}
 			emit_check(cls, variant, fs2, gs2, can2, es2, Q, tag);
+		}
+		// ---- every run: each per-generator test at the last generator and just beyond the table limit
+		if (cls == "P" && P.gs.size() > TMCG_MAX_FPOWM_N) {
+			size_t idxs[3] = { P.gs.size() - 1, TMCG_MAX_FPOWM_N, TMCG_MAX_FPOWM_N - 1 };
+			for (size_t i : idxs) {
+				{ GP Q = P; Z e; do { gen_below(e, g, P.p); mpz_powm(Q.gs[i], e, P.q, P.p); } while (mpz_cmp_ui(Q.gs[i], 1) <= 0); emit_check(cls, variant, fs, gsz, can, es, Q, "gi-wrong-order@" + std::to_string(i)); }
+				{ GP Q = P; mpz_set(Q.gs[i], Q.gs[0]); emit_check(cls, variant, fs, gsz, can, es, Q, "gi=g0@" + std::to_string(i)); }
+				{ GP Q = P; mpz_set(Q.gs[i], Q.h); emit_check(cls, variant, fs, gsz, can, es, Q, "gi=h@" + std::to_string(i)); }
+				{ GP Q = P; mpz_set_ui(Q.gs[i], 1); emit_check(cls, variant, fs, gsz, can, es, Q, "gi=1@" + std::to_string(i)); }
+				{ GP Q = P; mpz_sub_ui(Q.gs[i], P.p, 1); emit_check(cls, variant, fs, gsz, can, es, Q, "gi=p-1@" + std::to_string(i)); }
+			}
 		}
 		// ---- CheckElement around the valid group: exhaustive for tiny values, group elements, non-elements
 		{
